@@ -426,4 +426,142 @@ def textStaysText (a : Affinity) (s : List Char) : Bool :=
   | .numeric => !looksNumeric s
 
 
+
+
+/-! ### int arrays: `json.dumps(items, separators=(',', ':'), …)` / `json.loads` on SQLite (SQLiteArrayConverter) -/
+
+/-- `repr` of a Python int -/
+def intText (i : Int) : List Char :=
+  if i < 0 then '-' :: natDigits (-i).toNat else natDigits i.toNat
+
+/-- one integer token: optional '-', then only digits (at least one) -/
+def parseIntTok (t : List Char) : Option Int :=
+  match t with
+  | [] => none
+  | c :: r =>
+    if c = '-' then
+      (if r.isEmpty then none else match parseNat r with
+        | some n => some (-(n : Int))
+        | none => none)
+    else match parseNat (c :: r) with
+      | some n => some (n : Int)
+      | none => none
+
+/-- split at every ',' -/
+def splitComma : List Char → List (List Char)
+  | [] => [[]]
+  | c :: r =>
+    if c = ',' then [] :: splitComma r
+    else match splitComma r with
+      | [] => [[c]]
+      | t :: ts => (c :: t) :: ts
+
+def joinComma : List (List Char) → List Char
+  | [] => []
+  | [t] => t
+  | t :: u :: ts => t ++ (',' :: joinComma (u :: ts))
+
+/-- `dumps(items)` for a list of ints: `[1,-2,3]` -/
+def dumpsIntArray (l : List Int) : List Char := '[' :: (joinComma (l.map intText) ++ [']'])
+
+/-- `json.loads` on such a text (only the shape `dumps` writes: no spaces, no nesting) -/
+def loadsIntArray (s : List Char) : Option (List Int) :=
+  match s with
+  | '[' :: r =>
+    (match r.getLast? with
+     | some ']' =>
+       let inner := r.dropLast
+       if inner.isEmpty then some [] else (splitComma inner).mapM parseIntTok
+     | _ => none)
+  | _ => none
+
+
+
+/-! ### JSON string literals as `json.dumps(…, ensure_ascii=False)` writes and `json.loads` reads them
+    (str arrays and Json string values on SQLite) -/
+
+def hexDigit (n : Nat) : Char := if n < 10 then Char.ofNat (48 + n) else Char.ofNat (87 + n)
+
+def hexVal (c : Char) : Option Nat :=
+  let n := c.toNat
+  if 48 ≤ n ∧ n ≤ 57 then some (n - 48)
+  else if 97 ≤ n ∧ n ≤ 102 then some (n - 87)
+  else if 65 ≤ n ∧ n ≤ 70 then some (n - 55)
+  else none
+
+/-- `json.encoder.ESCAPE_DCT`: `"` `\` and the control characters; everything else (any code point ≥ 0x20) is written as it is -/
+def escChar (c : Char) : List Char :=
+  if c = '"' then ['\\', '"']
+  else if c = '\\' then ['\\', '\\']
+  else if c = '\n' then ['\\', 'n']
+  else if c = '\r' then ['\\', 'r']
+  else if c = '\t' then ['\\', 't']
+  else if c = '\x08' then ['\\', 'b']
+  else if c = '\x0c' then ['\\', 'f']
+  else if c.toNat < 32 then ['\\', 'u', '0', '0', hexDigit (c.toNat / 16), hexDigit (c.toNat % 16)]
+  else [c]
+
+def escBody (s : List Char) : List Char := s.flatMap escChar
+
+/-- `json.dumps(s)` for a str -/
+def encodeJsonStr (s : List Char) : List Char := '"' :: (escBody s ++ ['"'])
+
+/-- `json.decoder.scanstring` (strict) after the opening quote: the decoded text and what follows the closing quote -/
+def decodeBody : List Char → Option (List Char × List Char)
+  | [] => none
+  | c :: r =>
+    if c = '"' then some ([], r)
+    else if c = '\\' then
+      match r with
+      | [] => none
+      | e :: r2 =>
+        if e = 'u' then
+          match r2 with
+          | a :: b :: c3 :: d :: r3 =>
+            (match hexVal a, hexVal b, hexVal c3, hexVal d, decodeBody r3 with
+             | some x1, some x2, some x3, some x4, some (t, rest) => some (Char.ofNat (((x1 * 16 + x2) * 16 + x3) * 16 + x4) :: t, rest)
+             | _, _, _, _, _ => none)
+          | _ => none
+        else
+          let lit : Option Char :=
+            if e = '"' then some '"' else if e = '\\' then some '\\' else if e = '/' then some '/'
+            else if e = 'n' then some '\n' else if e = 'r' then some '\r' else if e = 't' then some '\t'
+            else if e = 'b' then some '\x08' else if e = 'f' then some '\x0c' else none
+          match lit, decodeBody r2 with
+          | some ch, some (t, rest) => some (ch :: t, rest)
+          | _, _ => none
+    else if c.toNat < 32 then none
+    else match decodeBody r with
+      | some (t, rest) => some (c :: t, rest)
+      | none => none
+
+/-- `dumps(items)` for a list of str -/
+def dumpsStrArray (l : List (List Char)) : List Char := '[' :: (joinComma (l.map encodeJsonStr) ++ [']'])
+
+/-- the items after `[`: string literals separated by ',' up to the closing ']' -/
+def parseStrItems : Nat → List Char → Option (List (List Char))
+  | 0, _ => none
+  | fuel + 1, s =>
+    match s with
+    | [] => none
+    | q :: r =>
+      if q = '"' then
+        match decodeBody r with
+        | some (t, rest) =>
+          (match rest with
+           | [] => none
+           | d :: rest2 =>
+             if d = ',' then (match parseStrItems fuel rest2 with
+               | some ts => some (t :: ts)
+               | none => none)
+             else if d = ']' ∧ rest2 = [] then some [t] else none)
+        | none => none
+      else none
+
+def loadsStrArray (s : List Char) : Option (List (List Char)) :=
+  match s with
+  | [] => none
+  | b :: r => if b = '[' then (if r = [']'] then some [] else parseStrItems r.length r) else none
+
+
 end PonyVerif.Model.Store
